@@ -46,7 +46,10 @@ impl Hasher for SymHasher {
 impl BuildHasher for SymBuild {
     type Hasher = SymHasher;
     fn build_hasher(&self) -> SymHasher {
-        SymHasher { acc: self.base, mul: self.mul }
+        SymHasher {
+            acc: self.base,
+            mul: self.mul,
+        }
     }
 }
 
@@ -66,17 +69,32 @@ fn k5_consistent_hash_valid_and_stable() {
         stubs.push(Rec { idx: i, hit: &hit });
         i += 1;
     }
-    let hb = SymBuild { base: kani::any(), mul: kani::any() };
+    let hb = SymBuild {
+        base: kani::any(),
+        mul: kani::any(),
+    };
     let ch = ConsistentHash::with_hasher(stubs, hb).unwrap();
-    assert!(ch.stubs_len == n as u64 && ch.stubs.len() == n as usize, "C20: stubs_len is the number of backends");
+    assert!(
+        ch.stubs_len == n as u64 && ch.stubs.len() == n as usize,
+        "C20: stubs_len is the number of backends"
+    );
     let req: u32 = kani::any();
-    let ctx = context::Context { deadline: any_instant(), trace_context: Default::default() };
+    let ctx = context::Context {
+        deadline: any_instant(),
+        trace_context: Default::default(),
+    };
     let h = ch.hash_request(&req);
     let _ = run(ch.call(ctx, req));
     let first = hit.get();
     assert!(first < n, "C20: only ever picks a valid backend");
-    assert!(first as u64 == h % (n as u64), "C20: backend == hash(request) % backend count");
+    assert!(
+        first as u64 == h % (n as u64),
+        "C20: backend == hash(request) % backend count"
+    );
     hit.set(255);
     let _ = run(ch.call(ctx, req));
-    assert!(hit.get() == first, "C20: equal requests go to the same backend");
+    assert!(
+        hit.get() == first,
+        "C20: equal requests go to the same backend"
+    );
 }
